@@ -45,7 +45,21 @@ def c13(run):
         "run with in_callback>0 or unlocked; (R-LOCK-WAIT) no unbounded wait while locked. Necessary for 'serialised and never deadlocks'.")
 
 
+def c18(run):
+    from rules import r_allocnull
+    P = run.prog('rel')
+    r_allocnull.run(run, P)
+    run.min_instances('R-ALLOC-NULL', 150)
+    run.assumptions = ASSUME_COMMON + ["every allocation funnels through coap_malloc_type/coap_realloc_type/malloc/calloc/realloc/strdup",
+                                       "'the next operation succeeds' is NOT decided"]
+    return run.finish(
+        "Library-wide: every value returned by a computed may-fail constructor is NULL-tested on every path before it is dereferenced or "
+        "handed to a callee that dereferences it (R-ALLOC-NULL); PDUs are consumed exactly once on every path including error paths "
+        "(R-OWN-PDU). Necessary for 'allocation failure is survived without crash or leak'.")
+
+
 PROPS = {
+    'C18': c18,
     'C13': c13,
     'C17': c17,
 }
